@@ -43,6 +43,11 @@ type callSite struct {
 	line       int
 }
 
+// objFields: fields of the tracked structs that point to an object with state of its own and no
+// locking of its own (*bufio.Reader, *bufio.Writer): a method call through such a field is an
+// access to that object ("Struct.field*"), and counts as a write
+var objFields = map[string]bool{}
+
 type extractor struct {
 	base int // first line of the top-level function being walked: lines are reported relative to it,
 	// so that an edit elsewhere in the file does not change the table
@@ -335,6 +340,29 @@ func (w *walker) expr(x ast.Expr) {
 			sub.stmts(v.Body.List)
 			return false
 		case *ast.CallExpr:
+			// a method call on the object behind a *bufio field
+			if f, ok := v.Fun.(*ast.SelectorExpr); ok {
+				if inner, ok := f.X.(*ast.SelectorExpr); ok {
+					if fld := w.e.fieldOf(inner); fld != "" && objFields[fld] {
+						w.e.sites = append(w.e.sites, accSite{w.fn, fld + "*", true, w.copyHeld(), w.e.fset.Position(v.Pos()).Line - w.e.base})
+					}
+				}
+			}
+			// ... or handing it to a function of another package (ber.ReadPacket(c.reader)); a
+			// function of this package that receives it is analysed itself
+			if f, ok := v.Fun.(*ast.SelectorExpr); ok {
+				if id, ok := f.X.(*ast.Ident); ok {
+					if _, isPkg := w.e.info.Uses[id].(*types.PkgName); isPkg {
+						for _, a := range v.Args {
+							if asel, ok := a.(*ast.SelectorExpr); ok {
+								if fld := w.e.fieldOf(asel); fld != "" && objFields[fld] {
+									w.e.sites = append(w.e.sites, accSite{w.fn, fld + "*", true, w.copyHeld(), w.e.fset.Position(v.Pos()).Line - w.e.base})
+								}
+							}
+						}
+					}
+				}
+			}
 			// calls of functions/methods of the same package
 			var obj types.Object
 			switch f := v.Fun.(type) {
@@ -408,6 +436,31 @@ func extractDir(dir, pkgName string, imp mapImporter) (*extractor, *types.Packag
 		Uses: map[*ast.Ident]types.Object{}, Defs: map[*ast.Ident]types.Object{}}
 	conf := types.Config{Importer: imp, Error: func(error) {}, FakeImportC: true}
 	tpkg, _ := conf.Check(pkgName, fset, files, info)
+	for _, f := range files {
+		for _, d := range f.Decls {
+			gd, ok := d.(*ast.GenDecl)
+			if !ok {
+				continue
+			}
+			for _, sp := range gd.Specs {
+				ts, ok := sp.(*ast.TypeSpec)
+				if !ok || !trackedStructs[ts.Name.Name] {
+					continue
+				}
+				st, ok := ts.Type.(*ast.StructType)
+				if !ok {
+					continue
+				}
+				for _, fl := range st.Fields.List {
+					if strings.HasPrefix(types.ExprString(fl.Type), "*bufio.") {
+						for _, n := range fl.Names {
+							objFields[ts.Name.Name+"."+n.Name] = true
+						}
+					}
+				}
+			}
+		}
+	}
 	e := &extractor{fset: fset, info: info, pkg: pkgName, funcs: map[string]bool{}}
 	for _, f := range files {
 		for _, d := range f.Decls {
